@@ -221,6 +221,20 @@ EmitDef == /\ todo # <<>> /\ Top.k = "slot" /\ IsPtr(Top.s) /\ bind[Top.s.i] = -
                  /\ cls' = Append(cls, [t |-> t, order |-> order])
            /\ UNCHANGED <<vi, todo, typ, bind, nref, dropped, done>>
 
+(* value ::= class-def value: a class definition may stand in front of ANY value - a scalar field, a list   *)
+(* element, a map key - long before the first instance of its class; also definitions of unrelated classes *)
+Unrelated == Cardinality({i \in 1..Len(cls) : cls[i].t = 0})
+ObjTypes == {V.n[i].t : i \in {j \in 1..Len(V.n) : V.n[j].k = "obj"}}
+EmitEarlyDef ==
+  /\ todo # <<>> /\ Top.k = "slot" /\ PreDefsOK /\ ~done /\ DefMode = "exact"
+  /\ Pick(Opt(<<>>, 1))
+  /\ \/ (Unrelated < 60 /\ out' = out \o PreDefOctets(Unrelated) /\ cls' = Append(cls, [t |-> 0, order |-> <<>>]))
+     \/ \E t \in {x \in ObjTypes : DefIndex(x) = 0} :
+          LET ty == Ty(t)  id == [j \in 1..Len(ty.fn) |-> j] IN
+          /\ out' = out \o DefOctets(ty, id, FALSE, UnknownName)
+          /\ cls' = Append(cls, [t |-> t, order |-> id])
+  /\ UNCHANGED <<vi, todo, typ, bind, nref, dropped, done>>
+
 (* instance tag (short or long form); the ordinal is taken BEFORE the fields *)
 EmitObject ==
   /\ todo # <<>> /\ Top.k = "slot" /\ IsPtr(Top.s) /\ bind[Top.s.i] = -1
@@ -300,7 +314,7 @@ EmitMap ==
 Finish == /\ todo = <<>> /\ ~done /\ done' = TRUE
           /\ UNCHANGED <<vi, todo, out, cls, typ, bind, nref, dropped, dev>>
 
-Next == Hoist \/ EmitLit \/ EmitLeaf \/ StartStr \/ EmitChunk \/ EmitRef \/ EmitDef
+Next == Hoist \/ EmitLit \/ EmitLeaf \/ StartStr \/ EmitChunk \/ EmitRef \/ EmitDef \/ EmitEarlyDef
         \/ EmitObject \/ EmitUnknown \/ EmitList \/ EmitMap \/ Finish
 Spec == Init /\ [][Next]_vars /\ WF_vars(Next)
 
